@@ -198,7 +198,7 @@ func (g *c13gen) leaf() *cty {
 	r := g.c.Rng
 	switch r.Intn(10) {
 	case 0:
-		return &cty{kind: "list", open: true, elem: &cty{kind: primKinds[r.Intn(6)]}}
+		return &cty{kind: "list", open: true, elem: &cty{kind: primKinds[r.Intn(7)]}} // lists of `_` included
 	case 1:
 		return &cty{kind: "list", open: r.Intn(3) != 0, elem: &cty{kind: "struct", fields: []cfield{{name: "k", form: "reg", ty: &cty{kind: "int"}}, {name: "name", form: "opt", ty: &cty{kind: "str"}}}}}
 	}
